@@ -158,6 +158,8 @@ def _call_value(self, callee, pos, kw, node, fr, star=None, dstar=None):
         ast.copy_location(fake, node)
         ast.copy_location(fake.func, node)
         return self.method_call(ca.args[0], ca.args[1], pos, kw, fake, fr, star, dstar)
+    if ca.kind == 'partialfn':
+        return self._call_value(ca.args[0], list(ca.args[1]) + list(pos), list(ca.args[2]) + list(kw), node, fr, star, dstar)
     if ca.kind == 'closure':
         cl = self.closures.get(ca.key)
         if cl is not None:
@@ -688,6 +690,9 @@ def call_external(self, dotted, pos, kw, node, fr):
                 self.assign(outs[0].value, res, fr, node)
             return res
         return self.numpy_call(last, pos, kw)
+    if dotted == 'functools.partial' and pos:
+        # partial(f, a, k=v): a callable that remembers its leading arguments
+        return Term.of(Atom('partialfn', pos[0], tuple(pos[1:]), tuple((k, v) for k, v in kw)))
     if dotted == 'copy.deepcopy' and pos:
         return T.mk_call('deepcopy', pos)
     if dotted == 'copy.copy' and pos:
@@ -843,7 +848,7 @@ def call_builtin(self, name, pos, kw, node, fr):
     if name == 'iter' and len(pos) == 2 and not kw:
         # iter(callable, sentinel): the callable is called once per element -- analyse one call (its events count)
         fa = pos[0].single_atom()
-        if fa is not None and fa.kind in ('closure', 'func', 'boundmethod'):
+        if fa is not None and fa.kind in ('closure', 'func', 'boundmethod', 'partialfn'):
             v = self._call_value(pos[0], [], [], node, fr)
             return T.mk_call('iter_until', [v, pos[1]])
     if name in ('filter', 'map') and len(pos) == 2 and not kw:
